@@ -234,6 +234,7 @@ ParseDef(c) ==
         tEnd == IF q \in {"\"", "'", "("} THEN IndexFrom(c, CloserOf(q), t0 + 1) ELSE 0
         e2 == SkipSp(c, tEnd + 1)
         titleOk == /\ t0 > p /\ tEnd > 0                                     \* separated from the destination by whitespace, closed
+                   /\ (q = "(" => Count(SubSeq(c, t0 + 1, tEnd - 1), "(") = 0)   \* a title in parentheses holds none unescaped
                    /\ (e2 > Len(c) \/ Ch(c, e2) = "\n")                       \* nothing else on its last line
                    /\ ~HasSub(SubSeq(c, t0, tEnd), "\n\n")
         noTitle == [ok |-> TRUE, len |-> IF e1 > Len(c) THEN Len(c) ELSE e1, label |-> label, dest |-> dest, title |-> ""] IN
